@@ -18,7 +18,7 @@ import (
 // in particular "return" inside the loop body (the hidden exit state and result variables).
 
 func (fr *Frame) rangeFuncYield(cc *ssa.CallCommon) (*closureInfo, int) {
-	if cc.IsInvoke() || cc.StaticCallee() != nil {
+	if cc.IsInvoke() {
 		return nil, -1
 	}
 	for i, a := range cc.Args {
@@ -47,6 +47,16 @@ func (fr *Frame) rangeFuncCall(cc *ssa.CallCommon, ci *closureInfo, pos token.Po
 	defer func() { fr.pendingArgs = saved }()
 	cur0 := fr.cur
 	called := r.Sc.FreshConst("iter.called", SBool)
+	// user invariant over the variables the body assigns: holds before the loop, is assumed before the last
+	// body execution (it held after every earlier one) and is re-established by it
+	var invs []Clause
+	if fr.top && fr.C != nil {
+		invs = fr.C.RangeInvs
+	}
+	for _, inv := range invs {
+		cl := inv
+		r.addObl("rangeloop:inv-entry", inv.Label, Implies(fr.cur, fr.ctxHere().Bool(inv.E)), inv.Src, &cl, pos)
+	}
 
 	// (A) the iterator never calls the body
 	stA := fr.st.Clone()
@@ -71,11 +81,24 @@ func (fr *Frame) rangeFuncCall(cc *ssa.CallCommon, ci *closureInfo, pos token.Po
 	for _, p := range body.Params {
 		args = append(args, TV(fr.freshTyped("it."+p.Name(), p.Type())))
 	}
+	for _, inv := range invs {
+		fr.assume(fr.ctxHere().Bool(inv.E))
+	}
 	if !fr.canInlineBody(body) {
 		r.unsupported("range-over-func body of %s is too large to execute", r.fnShort(fr.Fn))
 	}
-	fr.inlineCall(body, args, ci.bindings, pos)
+	goOn := fr.inlineCall(body, args, ci.bindings, pos)
 	curB := fr.cur
+	for _, inv := range invs {
+		// only an execution that asks for the next element (yield returns true) must re-establish the invariant:
+		// after a break or return the loop is over and the code that follows sees this execution's effects as they are
+		cl := inv
+		cont := True
+		if goOn.T.Sort == SBool {
+			cont = goOn.T
+		}
+		r.addObl("rangeloop:inv-preserve", inv.Label, Implies(And(fr.cur, cont), fr.ctxHere().Bool(inv.E)), inv.Src, &cl, pos)
+	}
 	fr.bumpTop()
 	fr.havocAllHeap()
 	stB := fr.st
